@@ -48,6 +48,17 @@ theorem C25_bridge (d : Dialect) (e : Sql) (start stop : Arg) (hs : Arg.wf start
   case pos.expr.expr => bridge_tac
   case neg.expr.expr => bridge_tac
 
+/-- the SQL text pieces `SQLiteBuilder.STRING_SLICE` returns: `py_string_slice(<e>, <a>, <b>)` -/
+def sqliteText (e a b : Sql) : PyVal :=
+  .list [.str "py_string_slice(", .call "builder" [e.enc], .str ", ", .call "builder" [a.enc], .str ", ", .call "builder" [b.enc], .str ")"]
+
+/-- bridge for the SQLite path: the definition regenerated from `SQLiteBuilder.STRING_SLICE` renders exactly the call
+    `py_string_slice(e, start | NULL, stop | NULL)` that `sqliteSliceT` denotes -/
+theorem C25_bridge_sqlite (e : Sql) (start stop : Arg) :
+    sqliteStringSlice e.enc start.enc stop.enc = .ok (sqliteText e start.sql stop.sql) := by
+  rcases start with _ | a | x <;> rcases stop with _ | b | y <;>
+    simp [sqliteStringSlice, sqliteText, Arg.enc, Arg.sql, Sql.enc, isNone_enc, pure, Except.pure]
+
 /-! ### statements -/
 
 
@@ -188,6 +199,51 @@ theorem C25_sliceFor (d : Dialect) (env : Env) (e : Sql) (s : List Char) (start 
   · exact C25_slice_mysql_partial env e s start stop i j he hi hj hg
   · exact C25_slice_oracle_partial env e s start stop i j he hi hj hg
   · simp only [sliceFor, if_true, strVal_sqlite]; exact C25_slice_sqlite env e s start stop i j he hi hj
+
+/-! ### exact failure sets
+
+The `_partial` theorems above give sufficient guards.  For PostgreSQL the guard is also necessary; for MySQL / Oracle
+the exact set is `myExact` (a start below `-len` is harmless when Python's slice is empty anyway; a negative start with
+`0 ≤ stop < len` is always wrong). -/
+
+/-- PostgreSQL, EXACT: the translation computes Python's slice if and only if it is not the case that both bounds
+    are constants of equal sign with stop < start (then, and only then, substr raises) -/
+theorem C25_slice_pg_exact (env : Env) (e : Sql) (s : List Char) (start stop : Arg) (i j : Option Int)
+    (he : eval .pg env e = .ok (.str s)) (hi : Arg.denotes .pg env start i) (hj : Arg.denotes .pg env stop j) :
+    eval .pg env (stringSliceT .pg e start stop) = .ok (.str (pySlice s i j)) ↔ noNegConstLen start stop i j := by
+  constructor
+  · intro h
+    unfold noNegConstLen
+    rintro ⟨h1, h2, b, hjb, hss, hlt⟩
+    rw [slice_eval .pg env e s start stop i j (by simp [lengthOf]) he hi hj, h1, h2, hjb] at h
+    have hneg : lenVal .pg s.length true (i.getD 0) b < 0 := by
+      simp only [lenVal]; rw [if_pos hss]; simp; omega
+    simp only [sliceSem, Bool.and_self, substr3V, if_pos hneg] at h
+    cases h
+  · intro h
+    have := C25_slice_pg_partial env e s start stop i j he hi hj h
+    rwa [strVal_pg] at this
+
+/-- MySQL, EXACT (strings whose characters are single bytes) -/
+theorem C25_slice_mysql_exact (env : Env) (e : Sql) (s : List Char) (start stop : Arg) (i j : Option Int)
+    (hb : singleByte s)
+    (he : eval .mysql env e = .ok (.str s)) (hi : Arg.denotes .mysql env start i) (hj : Arg.denotes .mysql env stop j) :
+    eval .mysql env (stringSliceT .mysql e start stop) = .ok (.str (pySlice s i j)) ↔ myExact s i j := by
+  rw [slice_eval .mysql env e s start stop i j (by simp [lengthOf]; exact_mod_cast hb) he hi hj, sliceSem_mysql,
+      ← mysqlResult_eq_iff]
+  constructor
+  · intro h; injection h with h; injection h
+  · intro h; rw [h]
+
+/-- Oracle, EXACT -/
+theorem C25_slice_oracle_exact (env : Env) (e : Sql) (s : List Char) (start stop : Arg) (i j : Option Int)
+    (he : eval .oracle env e = .ok (.str s)) (hi : Arg.denotes .oracle env start i) (hj : Arg.denotes .oracle env stop j) :
+    eval .oracle env (stringSliceT .oracle e start stop) = .ok (strVal .oracle (pySlice s i j)) ↔ myExact s i j := by
+  rw [slice_eval .oracle env e s start stop i j (by simp [lengthOf]) he hi hj, sliceSem_oracle,
+      ← mysqlResult_eq_iff, ← strVal_oracle_inj]
+  constructor
+  · intro h; injection h
+  · intro h; rw [h]
 
 /-! ### indexes: `s[i]` -/
 
@@ -342,6 +398,11 @@ example : startInRange "abcdef".toList (some (-4)) ∧ noMixedClip "abcdef".toLi
 example : noNegConstLen (.const 2) (.const 5) (some 2) (some 5) := by
   unfold noNegConstLen; rintro ⟨_, _, b, hb, _, hlt⟩; cases hb; revert hlt; decide
 example : ¬ sentinelHit (.const 1) (.const (-1)) := by unfold sentinelHit shortcut; decide
+example : myExact "abcdef".toList (some (-4)) (some 9) := by
+  refine ⟨by intro h; revert h; decide, ?_⟩
+  rintro ⟨_, _, b, hb, _, hlt⟩; cases hb; revert hlt; decide
+example : ¬ myExact "abcdef".toList (some (-4)) (some 5) := by
+  intro h; exact h.2 ⟨by decide, by decide, 5, rfl, by decide, by decide⟩
 example : pyIndex "abc".toList (-1) = some 'c' := by decide
 example : (getitemSlice (.expr (.col "s")) (.param "a" (some 1)) (.param "b" (some (-1))) []).2.lookup "a" = some 1 := by decide
 example : pyStringSliceUdf (.str "abcdef".toList) (.str ['-', '2']) .null = .ok (.str "ef".toList) := by decide
